@@ -24,6 +24,8 @@ var (
 	errCDI     = errors.New("verif: cdi injector failed")
 	errBlockIO = errors.New("verif: blockio resolver failed")
 	errRdt     = errors.New("verif: rdt resolver failed")
+	errFilter  = errors.New("verif: annotation filter refused")
+	errCheck   = errors.New("verif: resource checker refused")
 )
 
 // hostMounts is this host's mount table: mount point -> propagation as getPropagation reads it.
@@ -97,6 +99,10 @@ func classify(err error) string {
 		return "blockio"
 	case errors.Is(err, errRdt):
 		return "rdt"
+	case errors.Is(err, errFilter):
+		return "filter"
+	case errors.Is(err, errCheck):
+		return "check"
 	default:
 		return "other"
 	}
@@ -171,7 +177,67 @@ func applyOnce(in *In, wire bool) (out OutJ, restSame bool, panicked string) {
 			return &rspec.LinuxIntelRdt{ClosID: c}, nil
 		}))
 	}
+	filterCalls, checkCalls := 0, 0
+	checkNil := false
+	var checkSaw *SpecJ
 	var rg *rgen.Generator
+	if f := in.Ext.Filter; f != nil {
+		opts = append(opts, xgen.WithAnnotationFilter(func(ann map[string]string) (map[string]string, error) {
+			filterCalls++
+			switch f.Kind {
+			case "drop":
+				out := map[string]string{}
+				for k, v := range ann {
+					if !strings.HasPrefix(k, f.Arg) {
+						out[k] = v
+					}
+				}
+				return out, nil
+			case "reject":
+				for k := range ann {
+					if strings.HasPrefix(k, f.Arg) {
+						return nil, errFilter
+					}
+				}
+			}
+			return ann, nil
+		}))
+	}
+	if c := in.Ext.Check; c != nil {
+		opts = append(opts, xgen.WithResourceChecker(func(r *rspec.LinuxResources) error {
+			checkCalls++
+			if r == nil {
+				checkNil = true
+			}
+			if checkSaw == nil {
+				// the whole spec as it stands when the checker runs (r is rg.Config.Linux.Resources)
+				snap := FromSpec(rg.Config, cdi, in.Spec.Shape)
+				checkSaw = &snap
+			}
+			switch c.Kind {
+			case "fail":
+				return errCheck
+			case "failPidsGt":
+				if r != nil && r.Pids != nil && r.Pids.Limit > c.N {
+					return errCheck
+				}
+			case "capShares":
+				if c.N >= 0 && r != nil && r.CPU != nil && r.CPU.Shares != nil && *r.CPU.Shares > uint64(c.N) {
+					v := uint64(c.N)
+					r.CPU.Shares = &v
+				}
+			case "setPids":
+				if r != nil {
+					r.Pids = &rspec.LinuxPids{Limit: c.N}
+				}
+			case "clearUnified":
+				if r != nil {
+					r.Unified = nil
+				}
+			}
+			return nil
+		}))
+	}
 	if in.Spec.Shape.RawGenerator {
 		rg = &rgen.Generator{Config: spec}
 	} else {
@@ -180,7 +246,7 @@ func applyOnce(in *In, wire bool) (out OutJ, restSame bool, panicked string) {
 	}
 	g := xgen.SpecGenerator(rg, opts...)
 	err := g.Adjust(adj)
-	out = OutJ{Err: classify(err)}
+	out = OutJ{Err: classify(err), CheckCalls: checkCalls, CheckSaw: checkSaw, CheckNil: checkNil, FilterCalls: filterCalls}
 	if err == nil {
 		out.Spec = FromSpec(rg.Config, cdi, in.Spec.Shape)
 		restSame = restJSON(rg.Config) == before
